@@ -31,6 +31,7 @@ Section Marshal.
   Hypothesis Hu : forall z, (0 <= z < 2 ^ 64)%Z -> p_u64toa P z = utoa (Z.to_N z).
   Hypothesis Hq : forall s d, p_quote P s d = quote s d.
   Hypothesis Hbr : b_recurse P <> b_empty_arr P.
+  Hypothesis Hnull : EncOnlyOmitNull co = false.
   Hypothesis Hinline : 0 < MaxInlineDepth co.
 
   Theorem marshal_wellformed : forall flg t v prog,
@@ -47,7 +48,7 @@ Section Marshal.
     destruct (std_total e (fok P) ltac:(intros k b txt (x & -> & _); eexists; reflexivity) t Ht v (S (need v)) false Hv1 (le_n _)) as [res Hstd].
     pose proof (wellformed_frag e t Ht _ _ _ _ Hv2 Hstd) as Hwf.
     exists (encode_finish flg res). split; [apply encode_finish_strict; exact Hwf|].
-    destruct (exec_frag P e co Hi Hu Hq Hbr Hinline flg t v (S (need v)) res prog Hflg Ht Hcp Hv1 Hc Hstd Hstk) as (s0 & k & Hcall & Hrun).
+    destruct (exec_frag P e co Hi Hu Hq Hbr Hnull Hinline flg t v (S (need v)) res prog Hflg Ht Hcp Hv1 Hc Hstd Hstk) as (s0 & k & Hcall & Hrun).
     unfold encode, exec_top. rewrite Hcall.
     assert (Hk : k < 2 ^ (40 + k)) by (pose proof (pow2_gt (40 + k)); lia).
     pose proof (Hrun (40 + k) Hk) as H1.
@@ -71,26 +72,26 @@ Definition wf_outcome (o : outcome) (v : val) : Prop :=
   (exists out, o = Done out /\ strict (need v) out /\ (need v < 4096 -> Valid out = Ok true)) \/ o = OutOfFuel.
 
 Theorem marshal_wellformed_jit : forall e co flg t v prog,
-  0 < MaxInlineDepth co -> has_opts flg BitNoNullSliceOrMap = false ->
+  0 < MaxInlineDepth co -> EncOnlyOmitNull co = false -> has_opts flg BitNoNullSliceOrMap = false ->
   frag e t -> compilable e co t -> has_type (fok_wf prims_jit) t v ->
   compile e co t (has_opts flg BitPointerValue) = COk prog -> need v <= 4096 ->
   wf_outcome (encode prims_jit e co flg (Some (t, v))) v.
 Proof.
-  intros e co flg t v prog Hin Hflg Ht Hcp Hv Hc Hn.
-  destruct (marshal_wellformed prims_jit e co jit_i64 jit_u64 ltac:(reflexivity) ltac:(discriminate) Hin flg t v prog Hflg Ht Hcp Hv Hc) as (out & Hs & [Ho|Ho]).
+  intros e co flg t v prog Hin Hnu Hflg Ht Hcp Hv Hc Hn.
+  destruct (marshal_wellformed prims_jit e co jit_i64 jit_u64 ltac:(reflexivity) ltac:(discriminate) Hnu Hin flg t v prog Hflg Ht Hcp Hv Hc) as (out & Hs & [Ho|Ho]).
   - change (p_stack prims_jit) with 4096%N. lia.
   - left. exists out. repeat split; [exact Ho|exact Hs|]. intro Hd. eapply strict_valid; eassumption.
   - right. exact Ho.
 Qed.
 
 Theorem marshal_wellformed_vm : forall e co flg t v prog,
-  0 < MaxInlineDepth co -> has_opts flg BitNoNullSliceOrMap = false ->
+  0 < MaxInlineDepth co -> EncOnlyOmitNull co = false -> has_opts flg BitNoNullSliceOrMap = false ->
   frag e t -> compilable e co t -> has_type (fok_wf prims_vm) t v ->
   compile e co t (has_opts flg BitPointerValue) = COk prog -> need v <= 4096 ->
   wf_outcome (encode prims_vm e co flg (Some (t, v))) v.
 Proof.
-  intros e co flg t v prog Hin Hflg Ht Hcp Hv Hc Hn.
-  destruct (marshal_wellformed prims_vm e co ltac:(reflexivity) ltac:(reflexivity) ltac:(reflexivity) ltac:(discriminate) Hin flg t v prog Hflg Ht Hcp Hv Hc) as (out & Hs & [Ho|Ho]).
+  intros e co flg t v prog Hin Hnu Hflg Ht Hcp Hv Hc Hn.
+  destruct (marshal_wellformed prims_vm e co ltac:(reflexivity) ltac:(reflexivity) ltac:(reflexivity) ltac:(discriminate) Hnu Hin flg t v prog Hflg Ht Hcp Hv Hc) as (out & Hs & [Ho|Ho]).
   - change (p_stack prims_vm) with 4096%N. lia.
   - left. exists out. repeat split; [exact Ho|exact Hs|]. intro Hd. eapply strict_valid; eassumption.
   - right. exact Ho.
